@@ -203,6 +203,64 @@ def main() -> None:
   print(g() + 1)
 """}
 
+# a diagnostic zoo: every diagnostic that LISTS several things (missing variants / patterns, missing / unknown / duplicate
+# fields, missing @requires fields, several errors in one file): any set-valued intermediate shows as a changing order
+P_DIAG_MATCH = {
+    "main.incn": """enum Planet:
+  Mercury
+  Venus
+  Earth
+  Mars
+  Jupiter
+  Saturn
+  Uranus
+
+def name(p: Planet) -> int:
+  match p:
+    Planet.Earth => return 3
+
+def opt(o: Option[int]) -> int:
+  match o:
+    Some(v) => return v
+
+def res(r: Result[int, str]) -> int:
+  match r:
+    Ok(v) => return v
+
+def two(p: Planet, q: Planet) -> int:
+  match p:
+    Planet.Mars => return 1
+    Planet.Venus => return 2
+
+def main() -> None:
+  print(1)
+"""}
+
+P_DIAG_FIELDS = {
+    "main.incn": """@requires(alpha: int, beta: str, gamma: float, delta: bool, epsilon: int)
+trait Greek:
+  def first(self) -> int:
+    return self.alpha
+
+class Letters with Greek:
+  omega: int
+
+model Wide:
+  a: int
+  b: int
+  c: int
+  d: int
+  e: int
+  f: int
+
+def main() -> None:
+  w = Wide(zz=1, yy=2, xx=3, ww=4, vv=5)
+  v = Wide(a=1, a=2, b=1, b=2, c=1, c=2, d=0, e=0, f=0)
+  u = Wide(q=1)
+  print(un1 + un2 + un3 + un4)
+  print(w.nofield1 + w.nofield2)
+"""}
+
 P_FMTDIR = {name + ".incn": "def %s( a:int ,b:int)->int:\n  return a+b\n\n\n\ndef main()->None:\n  print( %s(1,2) )\n" % (name, name)
             for name in ["alpha", "beta", "gamma", "delta", "epsilon", "zeta"]}
 
@@ -217,6 +275,8 @@ def programs(ctx):
         {"id": "diag_trait", "tag": "diag.trait", "files": P_DIAG_TRAIT, "entry": "main.incn",
          "decl": {"diag.trait": ["area", "perimeter", "name", "sides", "zoom"]}},
         {"id": "diag_multi", "tag": "diag.multi", "files": P_DIAG_MULTI, "entry": "main.incn"},
+        {"id": "diag_match", "tag": "diag.match", "files": P_DIAG_MATCH, "entry": "main.incn"},
+        {"id": "diag_fields", "tag": "diag.fields", "files": P_DIAG_FIELDS, "entry": "main.incn"},
         {"id": "fmtdir", "tag": "fmtdir", "files": P_FMTDIR, "entry": "alpha.incn", "fmt_target": "."},
     ]
     ex = os.path.join(common.REPO, "examples")
